@@ -286,3 +286,37 @@ def offset_data(seed):
                 fails.append({"config": {k: v for k, v in kw.items() if k != "random_state"}, "violations": bad})
         res[name] = fails
     return res
+
+
+def mlcl_degenerate(seed):
+    """C17 (B): must-link / cannot-link decoration on degenerate constrained pairs -- duplicated samples declared must-link (their
+    predictions are identical: the pairwise term is exactly 0), pairs whose predictions saturate to the same one-hot row on badly
+    scaled data -- must leave finite parameters, probabilities and scores"""
+    import gemclus
+    from gemclus.linear import LinearMMD, LinearModel
+    from gemclus.mlp import MLPMMD
+    rs = np.random.RandomState(seed)
+    base = rs.normal(size=(14, 3))
+    base[1] = base[0]
+    base[5] = base[4]
+    res = {}
+    for name, mk in (("LinearMMD", lambda: LinearMMD(n_clusters=3, max_iter=4, random_state=seed)),
+                     ("LinearModel(mi,batch 5)", lambda: LinearModel(n_clusters=3, max_iter=4, random_state=seed, gemini="mi", batch_size=5)),
+                     ("MLPMMD", lambda: MLPMMD(n_clusters=2, max_iter=3, random_state=seed, n_hidden_dim=4))):
+        fails = []
+        for fam, X in (("duplicated samples", base), ("duplicated samples x1000", base * 1000.0)):
+            for ml, cl in (([(0, 1)], [(2, 3)]), ([(0, 1), (4, 5)], None), (None, [(0, 1)])):
+                try:
+                    with warnings.catch_warnings(), np.errstate(all="ignore"):
+                        warnings.simplefilter("ignore")
+                        m = gemclus.add_mlcl_constraint(mk(), must_link=ml, cannot_link=cl)
+                        m.fit(X)
+                        vals = [np.asarray(m.score(X), dtype=float), m.predict_proba(X)] + list(m._get_weights())
+                        ok = all(np.all(np.isfinite(v)) for v in vals)
+                        bad = [] if ok else ["non-finite parameter / probability / score"]
+                except Exception as e:
+                    bad = ["raised " + repr(e)[:160]]
+                if bad:
+                    fails.append({"family": fam, "must_link": ml, "cannot_link": cl, "violations": bad})
+        res[name] = fails
+    return res
